@@ -58,11 +58,12 @@ from prompt_toolkit.patch_stdout import StdoutProxy
 ID = "C20"
 DRIVER = "drv_c20"
 PROPS = ["Ptk.Props.C20", "Ptk.Props.C20Task", "Ptk.Props.C20Term", "Ptk.Props.C20Chain", "Ptk.Props.C20ChainLemmas",
-         "Ptk.Props.C20Lock", "Ptk.Props.C20Nest", "Ptk.Props.C20Patch"]
+         "Ptk.Props.C20Lock", "Ptk.Props.C20Nest", "Ptk.Props.C20Patch", "Ptk.Props.C20Alt"]
 SERIAL = False
 ANCHORS = ["src/prompt_toolkit/patch_stdout.py", "src/prompt_toolkit/application/run_in_terminal.py",
-           "src/prompt_toolkit/application/application.py", "src/prompt_toolkit/application/current.py"]
-LEVEL_TEXT = ("Lean 4 theorems over five executable transition-system models with atomic steps at lock / event-loop "
+           "src/prompt_toolkit/application/application.py", "src/prompt_toolkit/application/current.py",
+           "src/prompt_toolkit/renderer.py"]
+LEVEL_TEXT = ("Lean 4 theorems over six executable transition-system models with atomic steps at lock / event-loop "
               "granularity, for ANY number of threads and ANY interleaving (induction over arbitrary step lists): "
               "(a) StdoutProxy (write/flush under the RLock, line buffer, flush queue, the flush thread's sections, "
               "hand-off to the application loop; the loop callback in which run_in_terminal makes its task and the task's "
@@ -96,7 +97,11 @@ LEVEL_TEXT = ("Lean 4 theorems over five executable transition-system models wit
               "through whatever sys.stdout is, the flush thread held inside Output.flush): "
               "patch_stdout_routes_every_write, patch_stdout_delivers (every write call made during or after the "
               "with-block reaches the terminal or the restored stream, once, in call order), and "
-              "swapped_teardown_loses_text_witness (close before restore: seeded C20-j). Four schedule windows in "
+              "swapped_teardown_loses_text_witness (close before restore: seeded C20-j); "
+              "(f) the alternate screen of full-screen applications (Renderer.erase(leave_alternate_screen) / reset / "
+              "render's enter_alternate_screen prelude, in_terminal's and _on_resize's calls): section_on_normal_screen, "
+              "normal_screen_has_text_once (both application kinds, all schedules), and "
+              "erase_stays_in_alternate_screen_witness (seeded C20-l). Four schedule windows in "
               "which the property is FALSE of the current code are refuted on concrete schedules in Lean and replayed on the "
               "real code (known findings K1-K4). Tied to /repo on every run by a differential correspondence (real "
               "StdoutProxy, real threads and a real Application in an asyncio loop thread, driven step by step under "
@@ -124,7 +129,8 @@ RULE = ("proxy: every op sequence up to the tier's length over {write a / b\\n /
         "`with self._lock:` (entry of _write/_flush and before they return), incl. calls made while the lock is held "
         "(must block until the holder leaves); soak: free-running writer threads on an unmodified StdoutProxy (no "
         "application / application throughout / application stopped and restarted on a new loop between phases), also "
-        "through patch_stdout() + sys.stdout; nest: every op sequence up to the tier's length over {start application "
+        "through patch_stdout() + sys.stdout; alt: every op sequence up to the tier's length over {start, stop, "
+        "invalidate, resize, write+flush+settle} for a full-screen and an ordinary application + random; nest: every op sequence up to the tier's length over {start application "
         "(nested when a section is open), stop, open / close an in_terminal section, write+flush+settle} after 4 "
         "prefixes (running application; nested application inside a section; text waiting for a section; nested "
         "application finished inside a section) + random with deeper nesting; patch: every op sequence up to the "
@@ -136,18 +142,18 @@ EXHAUSTIVE = True
 EXHAUSTIVE_SCOPE = {
     "quick": "proxy without app: all sequences len<=3 over 7 ops; with app: 9 prefixes x all sequences len<=2 over 13 ops; "
              "hand-off vs shutdown: all sequences len<=3 over 9 ops after two accepted batches; "
-             "chain: all sequences len<=3 over 9 ops; nest: 4 prefixes x all sequences len<=3 over 5 ops; "
+             "chain: all sequences len<=3 over 9 ops; alt: 2 kinds x all sequences len<=4 over 5 ops; nest: 4 prefixes x all sequences len<=3 over 5 ops; "
              "patch: all sequences len<=4 over 6 ops",
     "thorough": "proxy without app: all sequences len<=5 over 7 ops; with app: 9 prefixes x all sequences len<=3 over 13 ops; "
                 "hand-off vs shutdown: all sequences len<=4 over 9 ops; chain: all sequences len<=4 over 9 ops; "
-                "nest: 4 prefixes x all sequences len<=5 over 5 ops; patch: all sequences len<=5 over 6 ops",
+                "alt: 2 kinds x all sequences len<=5 over 5 ops; nest: 4 prefixes x all sequences len<=5 over 5 ops; patch: all sequences len<=5 over 6 ops",
 }
 TRUSTED = ["harness/c20.py compares, after every scheduled step, the terminal events (erase / render / render-done / "
            "enable_autowrap+write+flush) received by a recording Vt100_Output and Renderer, _buffer, the queue items, the "
            "flush thread's position and locals, accepted-but-not-run callbacks, made-but-not-started run_in_terminal "
            "tasks, app / exit-requested / winding-down / loop state; at the end the output text "
            "and (without application) the exact StringIO content",
-           "Ptk/Model/C20.lean, C20Chain.lean, C20Lock.lean, C20Nest.lean, C20Patch.lean are hand translations of patch_stdout.py / "
+           "Ptk/Model/C20.lean, C20Chain.lean, C20Lock.lean, C20Nest.lean, C20Patch.lean, C20Alt.lean are hand translations of patch_stdout.py / "
            "run_in_terminal.py / current.py (set_app) / the parts of application.py they use (correspondence-checked; the functions are listed in MODELLED and hash-pinned)",
            "harness/gen_c20.py probes Vt100_Output.enable_autowrap / write / write_raw and StdoutProxy._write of the current "
            "tree (no threads) and prints what it sees into Ptk/Gen/C20.lean",
@@ -202,6 +208,8 @@ PARTIAL_SCOPE = ["preemption inside write/flush is modelled only down to the sha
                  "left and calls write() after close() writes to a closed proxy: outside the quantifier, "
                  "closed_proxy_writes_nothing); sys.stderr is bound like sys.stdout; an unfinished last line nobody "
                  "flushed stays in the line buffer when the block is left (close() does not flush it)",
+                 "alt model: one section = one step; of Renderer.render only the full-screen prelude (enter_alternate_screen) is "
+                 "modelled, of reset only the alternate-screen part; mouse support / bracketed paste / cursor keys mode are not",
                  "Windows outputs, isatty/fileno/encoding passthrough not modelled"]
 MODELLED = {
     "src/prompt_toolkit/patch_stdout.py": [
@@ -210,6 +218,7 @@ MODELLED = {
         "StdoutProxy._write_and_flush", "StdoutProxy._write_and_flush.write_and_flush",
         "StdoutProxy._write_and_flush.write_and_flush_in_loop", "patch_stdout"],
     "src/prompt_toolkit/application/current.py": ["set_app", "get_app_or_none"],
+    "src/prompt_toolkit/renderer.py": ["Renderer.erase", "Renderer.reset"],
     "src/prompt_toolkit/application/run_in_terminal.py": ["run_in_terminal", "run_in_terminal.run", "in_terminal"],
     "src/prompt_toolkit/application/application.py": [
         # run_async: the ExitStack (set_is_running, set_loop, set_app, create_future), `await f` and the `finally:` parts
@@ -545,7 +554,7 @@ class Rig:
         self.close_thread = None
         self.session_mode = session
         self._patch_cm = None
-        self.out = RecOutput(self)
+        self.out = getattr(self, "OUT", RecOutput)(self)
         self._sess_cm = None
         self._saved = None
         if session == "custom":
@@ -1137,6 +1146,8 @@ def model_lines(case):
             else:
                 out.append(op[0])
         return out
+    if kind == "alt":
+        return ["ainit %d" % case["fs"]] + [("asec %s" % enc_str(op[1])) if op[0] == "asec" else op[0] for op in case["ops"]]
     if kind == "nest":
         return ["ninit"] + [("nw %s" % enc_str(op[1])) if op[0] == "nw" else op[0] for op in case["ops"]]
     if kind == "patch":
@@ -1284,6 +1295,11 @@ def impl_lines(case):
         return rec["lines"]
     if kind == "lock":
         lines, rec = run_lock_case(case)
+        _cache.clear()
+        _cache[case_key(case)] = rec
+        return lines
+    if kind == "alt":
+        lines, rec = run_alt_case(case)
         _cache.clear()
         _cache[case_key(case)] = rec
         return lines
@@ -1935,12 +1951,177 @@ def oracle(case):
         return oracle_soak(case)
     if kind == "lock":
         return oracle_lock(case)
+    if kind == "alt":
+        return oracle_alt(case)
     if kind == "nest":
         return oracle_nest(case)
     if kind == "patch":
         return oracle_patch(case)
     raise ValueError(kind)
 
+
+
+
+# ------------------------------------------------------------------ the alternate screen (full-screen applications)
+SIG_ALT = "in_terminal | text written while the terminal is in the alternate screen (lost with it)"
+
+
+class AltOutput(RecOutput):
+    """records enter / quit_alternate_screen (at any depth) and the screen the terminal is in at every text write"""
+
+    def enter_alternate_screen(self):
+        self.rig.alt = True
+        self.rig.events.append(("ALT", 1))
+        super().enter_alternate_screen()
+
+    def quit_alternate_screen(self):
+        self.rig.alt = False
+        self.rig.events.append(("ALT", 0))
+        super().quit_alternate_screen()
+
+    def write(self, data):
+        if getattr(self.rig.tl, "depth", 0) == 0:
+            self.rig.events.append(("WALT", 1 if self.rig.alt else 0))
+        super().write(data)
+
+    def write_raw(self, data):
+        if getattr(self.rig.tl, "depth", 0) == 0:
+            self.rig.events.append(("WALT", 1 if self.rig.alt else 0))
+        super().write_raw(data)
+
+
+class AltRig(Rig):
+    OUT = AltOutput
+
+    def __init__(self, full_screen, session="default"):
+        self.fs = bool(full_screen)
+        self.alt = False
+        super().__init__(raw=False, session=session, gated=True)
+
+    def ensure_app(self):
+        if self.app is None:
+            self.inp_cm = create_pipe_input()
+            inp = self.inp_cm.__enter__()
+            self.app = Application(layout=Layout(Window(FormattedTextControl(">"))), input=inp, output=self.out,
+                                   full_screen=self.fs)
+            wrap_renderer(self, self.app)
+
+    def astart(self):
+        self.new_loop()
+        self.start_app()
+
+    def aresize(self):
+        if not self.running():
+            return
+        lt = self.cur_loop()
+        app = self.app
+
+        async def go():
+            app._on_resize()
+        lt.call(go())
+        lt.barrier()
+
+    def asec(self, text):
+        self.do_write(0, text)
+        self.do_flush(0)
+        self.settle()
+
+
+def canon_alt(evs):
+    out = []
+    walt = 0
+    i = 0
+    while i < len(evs):
+        e = evs[i]
+        if e[0] == "WALT":
+            walt = e[1]
+            i += 1
+        elif e[0] == "A" and i + 1 < len(evs) and evs[i + 1][0] == "WALT":
+            # enable_autowrap, [screen marker], write, flush
+            if i + 3 < len(evs) and evs[i + 2][0] == "W" and evs[i + 3][0] == "F":
+                out.append("O%d:%s" % (evs[i + 1][1], enc_str(evs[i + 2][2])))
+                i += 4
+            else:
+                out.append("?A")
+                i += 1
+        elif e[0] == "ALT":
+            out.append("A+" if e[1] else "A-")
+            i += 1
+        elif e[0] in ("E", "D", "X"):
+            out.append(e[0])
+            i += 1
+        else:
+            out.append("?" + e[0])
+            i += 1
+    return out
+
+
+@retry_on_timeout
+def run_alt_case(case):
+    rig = AltRig(case["fs"], session=case.get("session", "default"))
+    lines = []
+    rec = {"errors": [], "timeline": [], "notes": rig.notes}
+    try:
+        rig.take_events()
+        lines.append(" | app=0 alt=0")
+        for op in case["ops"]:
+            k = op[0]
+            if k == "astart":
+                rig.astart()
+            elif k == "astop":
+                rig.stop_app()
+            elif k == "ainval":
+                rig.invalidate()
+            elif k == "aresize":
+                rig.aresize()
+            elif k == "asec":
+                rig.asec(op[1])
+            else:
+                raise ValueError(op)
+            evs = rig.take_events()
+            if k != "asec":
+                evs = [e for e in evs if e[0] in ("E", "D", "X", "ALT")]
+            rec["timeline"] += evs
+            lines.append(" ".join(canon_alt(evs)) + " | app=%d alt=%d" % (1 if rig.running() else 0, 1 if rig.alt else 0))
+    except RigTimeout as e:
+        rec["errors"].append("timeout: loop/rig: " + str(e))
+        lines.append("timeout:" + str(e))
+    finally:
+        rec["errors"] += rig.teardown()
+    if rec["errors"]:
+        lines.append("errors:" + ";".join(rec["errors"])[:300])
+    return lines, rec
+
+
+def oracle_alt(case):
+    """at every text write the terminal is in the normal screen; the normal-screen transcript holds the text of
+    every write once, in order"""
+    key = case_key(case)
+    rec = _cache.pop(key) if key in _cache else run_alt_case(case)[1]
+    v = []
+    if rec["errors"]:
+        v.append({"signature": SIG_RIG, "msg": "; ".join(rec["errors"])[:400]})
+    tl = rec["timeline"]
+    normal = ""
+    for i, e in enumerate(tl):
+        if e[0] == "WALT" and i + 1 < len(tl) and tl[i + 1][0] == "W":
+            text = tl[i + 1][2]
+            if e[1]:
+                v.append({"signature": SIG_ALT, "msg": "text %r written inside the alternate screen: %r" % (text, canon_alt(tl)[:30])})
+            else:
+                normal += text
+    want = "".join(op[1] for op in case["ops"] if op[0] == "asec")
+    if normal != want and not any(x["signature"] == SIG_ALT for x in v):
+        v.append({"signature": SIG_STREAM + (" | lost" if len(normal) < len(want) else " | reordered or duplicated"),
+                  "msg": "normal screen %r, writes %r" % (normal, want)})
+    for sig, msg in check_bracket([e for e in tl if e[0] not in ("ALT", "WALT")]):
+        v.append({"signature": sig, "msg": msg})
+    seen, out = set(), []
+    for x in v:
+        if x["signature"] not in seen:
+            seen.add(x["signature"])
+            out.append(x)
+    return out
 
 
 # ------------------------------------------------------------------ nested applications (AppSession.app as a stack)
@@ -2821,6 +3002,33 @@ def random_patch(rng, nops):
     return {"kind": "patch", "raw": rng.choice([0, 0, 1]), "ops": ops}
 
 
+ALT_ALPHA = [["astart"], ["astop"], ["ainval"], ["aresize"], ["asec", "a\n"]]
+
+
+def exhaustive_alt(maxlen):
+    for fs in (1, 0):
+        for n in range(0, maxlen + 1):
+            for seq in itertools.product(ALT_ALPHA, repeat=n):
+                yield {"kind": "alt", "fs": fs, "session": "default", "ops": [list(o) for o in seq]}
+
+
+def random_alt(rng, nops):
+    ops = [["astart"]] if rng.random() < 0.8 else []
+    for i in range(nops):
+        r = rng.random()
+        if r < 0.45:
+            ops.append(["asec", rng.choice(["t%d\n" % i, "p%d" % i, "x\ny%d\n" % i, "e\x1b[2J%d\n" % i])])
+        elif r < 0.6:
+            ops.append(["ainval"])
+        elif r < 0.75:
+            ops.append(["aresize"])
+        elif r < 0.88:
+            ops.append(["astop"])
+        else:
+            ops.append(["astart"])
+    return {"kind": "alt", "fs": rng.choice([1, 1, 0]), "session": rng.choice(["default", "custom"]), "ops": ops}
+
+
 def cases(tier, rng):
     quick = tier == "quick"
     yield from exhaustive_noapp(3 if quick else 5)
@@ -2835,6 +3043,9 @@ def cases(tier, rng):
         yield random_chain(rng, rng.choice([4, 8, 16]))
     for i in range(8 if quick else 80):
         yield lock_case(rng, rng.choice([6, 12, 24]), rng.choice([0, 1, 1, 2]))
+    yield from exhaustive_alt(4 if quick else 5)
+    for _ in range(60 if quick else 1500):
+        yield random_alt(rng, rng.choice([5, 10, 16]))
     yield from exhaustive_nest(3 if quick else 5)
     yield from exhaustive_patch(4 if quick else 5)
     for _ in range(60 if quick else 1500):
@@ -2863,6 +3074,8 @@ def nontrivial(case):
         return any(op[0] == "center" for op in case["ops"])
     if k == "lock":
         return any(op[0] == "lcall" and op[2][0] == "w" and op[2][1] for op in case["ops"])
+    if k == "alt":
+        return any(op[0] == "asec" for op in case["ops"]) and any(op[0] == "astart" for op in case["ops"])
     if k == "nest":
         return any(op[0] == "nw" for op in case["ops"]) and any(op[0] == "nstart" for op in case["ops"])
     if k == "patch":
